@@ -4,11 +4,11 @@ from vf import Query, VERIF, REPO
 from common import R_ASSUME
 import C01
 
-OPS = ['TAIL_CALL', 'RET', 'CALLCC', 'RESUMECC']
+OPS = ['TAIL_CALL', 'RET', 'CALLCC', 'RESUMECC', 'LABEL_make_call']
 UNITS = C01.UNITS
 UD = dict(C01.UD, SEXP_MAX_STACK_SIZE=48, KIT_MAX_stack=48, KIT_MAX_vector=12)
 EXC = C01.EXC
-FUNCTIONS = ['sexp_apply: case SEXP_OP_TAIL_CALL', 'sexp_apply: case SEXP_OP_RET', 'sexp_grow_stack']
+FUNCTIONS = ['sexp_apply: case SEXP_OP_TAIL_CALL', 'sexp_apply: case SEXP_OP_RET', 'sexp_grow_stack', 'sexp_apply: make_call']
 
 
 def prepare(run, tier):
@@ -28,11 +28,28 @@ def queries(tier):
     return [mk('TAIL_CALL[j<=2 old args, i<=2 new args, <=2 locals: frame replaced]', 1, functions=FUNCTIONS[:1]),
             mk('RET[j<=2 args, <=2 locals: frame popped]', 2, functions=FUNCTIONS[1:2]),
             ] + [mk('grow_stack[12-word stack, any top, request %d; limit 48]' % w, 5, extra={'WANT': w, 'DEPTH': 12}, functions=FUNCTIONS[2:]) for w in (0, 30, 100)] + \
-           [mk('grow_stack[48-word stack at the limit, request 100]', 5, extra={'WANT': 100, 'DEPTH': 48}, functions=FUNCTIONS[2:])]
+           [mk('grow_stack[48-word stack at the limit, request 100]', 5, extra={'WANT': 100, 'DEPTH': 48}, functions=FUNCTIONS[2:])] + make_call_queries(tier)
+
+
+UD_CALL = dict(C01.UD, KIT_MAX_stack=48, KIT_MAX_vector=12)     # default SEXP_MAX_STACK_SIZE; a 96-word stack keeps sexp_ensure_stack's 64-word margin free
+
+
+def make_call_queries(tier):
+    qs = []
+    for na in (0, 1, 2):
+        for var, unused in ((0, 0), (1, 0), (1, 1)):
+            qs.append(Query(name='make_call[callee with %d fixed parameters%s; 0..3 arguments]' % (na, ', rest parameter' + (' (unused)' if unused else '') if var else ''),
+                            harness='C05_calls.c', units=UNITS, unit_defs=UD_CALL, defs={'OP': 7, 'NA': na, 'VARIADIC': var, 'UNUSED_REST': unused, 'CALLEE_KIND': 0, 'DEPTH': 96},
+                            unwind=100, remove_bodies=EXC, cap=600, backends=['cadical', 'minisat', 'kissat'], functions=['sexp_apply: make_call (arity, rest list, frame header)']))
+    for kind, nm in ((1, 'pair'), (2, 'fixnum')):
+        qs.append(Query(name='make_call[applying a %s]' % nm, harness='C05_calls.c', units=UNITS, unit_defs=UD_CALL,
+                        defs={'OP': 7, 'NA': 1, 'VARIADIC': 0, 'UNUSED_REST': 0, 'CALLEE_KIND': kind, 'DEPTH': 96}, unwind=100, remove_bodies=EXC, cap=600,
+                        backends=['cadical', 'minisat', 'kissat'], functions=['sexp_apply: make_call (applicability)']))
+    return qs
 
 
 BOUNDS = {'frames': 'caller frame with 0..2 arguments and 0..2 locals at a symbolic previous fp / return offset; 0..2 new arguments', 'stack': '24 words; SEXP_MAX_STACK_SIZE scaled to 48'}
 ASSUMPTIONS = R_ASSUME + ['constant space for N iterations follows from the one-step frame replacement by induction (paper argument); '
                           'SEXP_MAX_STACK_SIZE is overridden to 48 (scale model of the limit, features.h allows the override)']
 OUTSIDE = ['code generation of tail positions (sexp_generate: which calls become TAIL_CALL) and derived forms (cond/case/and/or/when/unless/do, named let are Scheme macros)',
-           'the make_call sequence itself (arity check, rest-list building, stack check) and the out-of-stack error path through it', 'deep non-tail recursion end to end']
+           'opcode objects applied through make_call (make_opcode_procedure compiles a wrapper), the out-of-stack error path through make_call', 'deep non-tail recursion end to end']
